@@ -107,8 +107,9 @@ func c15Base() M {
 			},
 			"disable_unique": true,
 		},
-		"filter_agg": "or",
-		"compiled":   M{"name": ""},
+		"filter_agg":   "or",
+		"notification": M{"columns": L{"tct", "tval"}}, // a string-valued chain value (call type) in the payload
+		"compiled":     M{"name": ""},
 		"block": L{
 			M{"name": "trace_action_from", "column": "tfrom"},
 			M{"name": "trace_action_call_type", "column": "tct", "filter_op": "ne", "filter_arg": L{"create"}},
@@ -373,6 +374,16 @@ func dupVariant(tree any, path []string, hostile string, dup int) (any, string, 
 // marker: "col DESC" is documented index syntax.
 var c15Markers = []string{`m1'm`, `m2"m`, `m3;m`, `m4)m`, `m5(m`, `m6--m`, `m7$$m`, `m8\m`, `m9.m`}
 
+// c15ChainExtra: further hostile chain strings (chain-data jobs only; Marker index continues after c15Markers).
+var c15ChainExtra = []string{`it's`, `x'); delete from shovel.task_updates; --`, `$1'); select pg_notify('a', 'b`}
+
+func c15ChainString(i int) string {
+	if i < len(c15Markers) {
+		return c15Markers[i]
+	}
+	return c15ChainExtra[i-len(c15Markers)]
+}
+
 var c15Forms = []string{"whole", "suffix", "prefix", "after-space", "after-direction", "meta-first", "meta-last", "meta-only"}
 
 // c15Meta[i] is the hostile part of c15Markers[i]; forms 5-7 put it FIRST ('m1m), LAST (m1m') and alone (').
@@ -424,7 +435,7 @@ func c15Variant(val string, marker, form int) string {
 // c15HyphenOnly: the marker consists of letters, digits and hyphens only, i.e. it SATISFIES the restriction
 // the property states ("letters, digits, underscore and hyphen"). It is enumerated like the others (a
 // double hyphen starts an SQL comment) but its arrival in SQL text is recorded, not judged.
-func c15HyphenOnly(marker int) bool { return c15Markers[marker] == `m6--m` }
+func c15HyphenOnly(marker int) bool { return marker < len(c15Markers) && c15Markers[marker] == `m6--m` }
 
 // ---- linked substitution: one identifier renamed consistently everywhere it is referred to ------------
 
